@@ -225,6 +225,18 @@ def cases(ctx):
     out.append(["parsedep", b"a; " + b"(" * 20000 + b"os_name=='x'" + b")" * 20000])
     out.append(["pom", b"<project><properties>" + b"".join(b"<p%d>${p%d}</p%d>" % (i, i + 1, i) for i in range(3000)) + b"<p3000>${p0}</p3000></properties><version>${p0}</version></project>", b"", b""])
     out.append(["parse", 6, b"1" * 100000])
+    # component counts around the int16/uint16 boundaries (userNumCount is an int16)
+    for cnt in (32767, 32768, 40000, 65535, 65536):
+        long_v = b".".join([b"1"] * cnt)
+        for sysi in (6, 7):
+            out.append(["parse", sysi, long_v])
+            for op in ([b"~=", b"==", b">="] if sysi == 6 else [b"~>", b"=", b">="]):
+                out.append(["pconstraint", sysi, op + b" " + long_v])
+            out.append(["match", sysi, ([b"~=", b"~>"][sysi - 6]) + long_v, b"1.1"])
+        out.append(["parse", 3, long_v])
+        out.append(["pconstraint", 3, b"[" + long_v + b",)"])
+        out.append(["parse", 8, long_v])
+        out.append(["parse", 5, long_v])
     out.append(["pconstraint", 4, b"||".join([b"1.0.0"] * 5000)])
     out.append(["pconstraint", 4, b" ".join([b">=1.0.0"] * 5000)])
     return out
